@@ -9,48 +9,50 @@ From PG Require Model.PyList Model.PyDict.
 Local Open Scope Z_scope.
 
 Section Slices.
-Variables (q : quirks) (sc : scope) (r : nat) (tid : N) (fl : flags).
+Variables (q : quirks) (sc : scope) (ps : pos) (tid : N) (pa : option N) (fl : flags).
 
 (* List._delete_items *)
-Lemma ldel_many_root : forall st its f st' b,
-  root_is st r tid KList fl its -> clean its -> ldel_many st (r, []) f = (st', b) ->
-  wrote st r tid fl st' (PyList.filter_pos (fun i => negb (f i)) 0 (evals its)).
+Lemma ldel_many_at : forall st its f st' b,
+  at_is st ps tid KList pa fl its -> clean its -> anc_clean st ps -> wfs st -> ldel_many st ps f = (st', b) ->
+  wrote st ps tid pa fl st' (PyList.filter_pos (fun i => negb (f i)) 0 (evals its)).
 Proof.
-  intros st its f st' b R C E. unfold ldel_many in E.
-  destruct (root_cur r tid fl _ _ R) as (CI & CP & _). rewrite CI, CP in E. clear CI CP.
+  intros st its f st' b R C A W E. unfold ldel_many in E.
+  destruct (at_cur ps tid pa fl _ _ R) as (CI & CP & _). rewrite CI, CP in E. clear CI CP.
+  destruct (at_children ps tid pa fl _ _ W R) as (CF & KP).
   unfold evals. rewrite <- PyListFacts.filter_pos_map. fold (evals (PyList.filter_pos (fun i => negb (f i)) 0 its)).
   destruct (PyList.filter_pos f 0 its) as [|g gone] eqn:G.
   - inv E. rewrite PyListFacts.filter_pos_none; auto. apply wrote_refl; auto.
-  - injection E as E1 E2. subst st' b. rewrite <- (evals_renum []).
-    exists (renum [] (PyList.filter_pos (fun i => negb (f i)) 0 its)). repeat split; auto.
-    + apply keeps_roots_detach_all. try apply keeps_roots_add_detached. unfold root_is. rewrite (get_root_update_at_same _ _ _ _ R). reflexivity.
-    + apply clean_renum. apply PyListFacts.filter_pos_forall; auto.
-    + red; intros. apply keeps_roots_detach_all. try apply keeps_roots_add_detached. rewrite get_root_update_at_other; auto.
+  - injection E as E1 E2. subst st' b.
+    refine (items_replaced ps tid pa fl st its _ (g :: gone) R A W _ _ _).
+    + apply PyListFacts.filter_pos_forall; auto.
+    + apply child_wf_any_of. apply PyListFacts.filter_pos_forall; auto.
+    + rewrite <- G. apply PyListFacts.filter_pos_forall. apply (children_wf_any tid (snd ps)); auto.
 Qed.
 
 (* a batch of item assignments at positions in range *)
 Lemma write_loop_replace : forall ivs st its upd st' u e,
-  root_is st r tid KList fl its -> clean its ->
+  at_is st ps tid KList pa fl its -> clean its -> anc_clean st ps -> wfs st ->
   Forall (fun iv => 0 <= fst iv < zlen its /\ plain_rv (snd iv)) ivs ->
-  write_loop q sc st (r, []) ivs upd = (st', u, e) ->
-  e = None /\ wrote st r tid fl st' (fold_left PyListFacts.put (map (fun iv => (fst iv, prv (snd iv))) ivs) (evals its)).
+  write_loop q sc st ps ivs upd = (st', u, e) ->
+  e = None /\ wrote st ps tid pa fl st' (fold_left PyListFacts.put (map (fun iv => (fst iv, prv (snd iv))) ivs) (evals its)).
 Proof.
-  induction ivs as [|[i rv] ivs IH]; intros st its upd st' u e R C F E; simpl in E.
+  induction ivs as [|[i rv] ivs IH]; intros st its upd st' u e R C A W F E; simpl in E.
   - inv E. split; auto. apply wrote_refl; auto.
   - inv F. destruct H1 as [B PL]. simpl in B, PL.
-    destruct (lprim q sc st (r, []) (KI i) rv) as [st1 p] eqn:L.
-    destruct (lprim_replace q sc st r tid fl its R C i rv st1 p PL ltac:(lia) L) as (PP & its1 & R1 & C1 & E1 & K1).
+    destruct (lprim q sc st ps (KI i) rv) as [st1 p] eqn:L.
+    destruct (lprim_replace q sc st ps tid pa fl its R C A W i rv st1 p PL ltac:(lia) L) as (PP & its1 & R1 & C1 & E1 & K1 & A1 & W1).
     replace (i <? 0) with false in E1 by lia.
     assert (LEN : zlen its1 = zlen its).
     { unfold zlen. rewrite <- (evals_length its1), E1, PyListFacts.replace_nth_length, evals_length. reflexivity. }
-    assert (exists upd', write_loop q sc st1 (r, []) ivs upd' = (st', u, e)) by (destruct PP; subst p; eauto).
+    assert (exists upd', write_loop q sc st1 ps ivs upd' = (st', u, e)) by (destruct PP; subst p; eauto).
     destruct H as [upd' E'].
     assert (F' : Forall (fun iv => 0 <= fst iv < zlen its1 /\ plain_rv (snd iv)) ivs) by (rewrite LEN; auto).
-    destruct (IH st1 its1 upd' st' u e R1 C1 F' E') as (EE & its2 & R2 & C2 & E2 & K2).
+    destruct (IH st1 its1 upd' st' u e R1 C1 A1 W1 F' E') as (EE & its2 & R2 & C2 & E2 & K2 & A2 & W2).
     split; auto. exists its2. repeat split; auto.
     + rewrite E2, E1. reflexivity.
     + eapply keeps_other_trans; eauto.
 Qed.
+
 (* the writes of l[s:e] = vs: replace while inside the slice, insert afterwards *)
 Lemma insert_length : forall A (L : list A) s v, 0 <= s <= PyList.len L -> PyList.len (PyList.insert L s v) = PyList.len L + 1.
 Proof.
@@ -58,32 +60,32 @@ Proof.
   rewrite firstn_length_le by lia. rewrite skipn_length. lia.
 Qed.
 Lemma write_loop_splice : forall rvs st its upd s e st' u err,
-  root_is st r tid KList fl its -> clean its -> Forall plain_rv rvs ->
+  at_is st ps tid KList pa fl its -> clean its -> anc_clean st ps -> wfs st -> Forall plain_rv rvs ->
   0 <= s <= zlen its -> (s < e -> e <= zlen its) ->
-  write_loop q sc st (r, []) (slice_writes s e rvs) upd = (st', u, err) ->
-  err = None /\ wrote st r tid fl st' (PyListFacts.splice_writes (evals its) s e (map prv rvs)).
+  write_loop q sc st ps (slice_writes s e rvs) upd = (st', u, err) ->
+  err = None /\ wrote st ps tid pa fl st' (PyListFacts.splice_writes (evals its) s e (map prv rvs)).
 Proof.
-  induction rvs as [|rv rvs IH]; intros st its upd s e st' u err R C F B1 B2 E; simpl in E.
+  induction rvs as [|rv rvs IH]; intros st its upd s e st' u err R C A W F B1 B2 E; simpl in E.
   - inv E. split; auto. apply wrote_refl; auto.
   - inv F. simpl.
     destruct (s >=? e) eqn:G.
-    + destruct (lprim q sc st (r, []) (KI s) (RIns rv)) as [st1 p] eqn:L.
-      destruct (lprim_insert q sc st r tid fl its R C s rv st1 p (plain_storable _ H1) L) as (PP & its1 & R1 & C1 & E1 & K1).
+    + destruct (lprim q sc st ps (KI s) (RIns rv)) as [st1 p] eqn:L.
+      destruct (lprim_insert q sc st ps tid pa fl its R C A W s rv st1 p (plain_storable _ H1) L) as (PP & its1 & R1 & C1 & E1 & K1 & A1 & W1).
       subst p.
       assert (LEN : zlen its1 = zlen its + 1).
       { rewrite <- !len_evals, E1. apply insert_length. rewrite len_evals. lia. }
-      destruct (IH st1 its1 true (s + 1) e st' u err R1 C1 H2 ltac:(lia) ltac:(lia) E) as (EE & its2 & R2 & C2 & E2 & K2).
+      destruct (IH st1 its1 true (s + 1) e st' u err R1 C1 A1 W1 H2 ltac:(lia) ltac:(lia) E) as (EE & its2 & R2 & C2 & E2 & K2 & A2 & W2).
       split; auto. exists its2. repeat split; auto.
       * rewrite E2, E1. reflexivity.
       * eapply keeps_other_trans; eauto.
-    + destruct (lprim q sc st (r, []) (KI s) rv) as [st1 p] eqn:L.
-      destruct (lprim_replace q sc st r tid fl its R C s rv st1 p H1 ltac:(lia) L) as (PP & its1 & R1 & C1 & E1 & K1).
+    + destruct (lprim q sc st ps (KI s) rv) as [st1 p] eqn:L.
+      destruct (lprim_replace q sc st ps tid pa fl its R C A W s rv st1 p H1 ltac:(lia) L) as (PP & its1 & R1 & C1 & E1 & K1 & A1 & W1).
       replace (s <? 0) with false in E1 by lia.
       assert (LEN : zlen its1 = zlen its).
       { unfold zlen. rewrite <- (evals_length its1), E1, PyListFacts.replace_nth_length, evals_length. reflexivity. }
-      assert (exists upd', write_loop q sc st1 (r, []) (slice_writes (s + 1) e rvs) upd' = (st', u, err)) by (destruct PP; subst p; eauto).
+      assert (exists upd', write_loop q sc st1 ps (slice_writes (s + 1) e rvs) upd' = (st', u, err)) by (destruct PP; subst p; eauto).
       destruct H as [upd' E'].
-      destruct (IH st1 its1 upd' (s + 1) e st' u err R1 C1 H2 ltac:(lia) ltac:(lia) E') as (EE & its2 & R2 & C2 & E2 & K2).
+      destruct (IH st1 its1 upd' (s + 1) e st' u err R1 C1 A1 W1 H2 ltac:(lia) ltac:(lia) E') as (EE & its2 & R2 & C2 & E2 & K2 & A2 & W2).
       split; auto. exists its2. repeat split; auto.
       * rewrite E2, E1. reflexivity.
       * eapply keeps_other_trans; eauto.
@@ -105,17 +107,17 @@ Lemma zip_forall_both : forall A B (P : A -> Prop) (Q : B -> Prop) (a : list A) 
 Proof. induction a; destruct b; simpl; intros; auto. inv H; inv H0. constructor; auto. Qed.
 
 Section SliceRefine.
-Variables (q : quirks) (sc : scope) (r : nat) (tid : N) (fl : flags).
+Variables (q : quirks) (sc : scope) (ps : pos) (tid : N) (pa : option N) (fl : flags).
 
 Theorem exec_x_list_refines : forall st its x lo st' out,
-  root_is st r tid KList fl its -> clean its -> permits sc fl -> plain_xop x -> xlop_of x = Some lo ->
-  exec_x q sc st (r, []) fl its x = (st', out) ->
+  wfs st -> at_is st ps tid KList pa fl its -> clean its -> anc_clean st ps -> permits sc fl -> plain_xop x -> xlop_of x = Some lo ->
+  exec_x q sc st ps fl its x = (st', out) ->
   match py_lstep (evals its) lo with
   | inr e => st' = st /\ out = Err (err_of e)
-  | inl (l', ret) => wrote st r tid fl st' l' /\ ret_agrees st' out ret
+  | inl (l', ret) => wrote st ps tid pa fl st' l' /\ ret_agrees st' out ret
   end.
 Proof.
-  intros st its x lo st' out R C [SL AW] PL LO E.
+  intros st its x lo st' out W R C A [SL AW] PL LO E.
   assert (NN : 0 <= zlen its) by (unfold zlen; lia).
   destruct x; simpl in LO; inv LO; unfold exec_x in E; rewrite SL, AW in E; cbn [negb] in E; simpl in PL;
     unfold py_lstep, PyList.lstep.
@@ -126,13 +128,13 @@ Proof.
     destruct (PyListFacts.slice_indices_bounds _ _ _ _ _ _ _ NN SI) as (NZ & BP & BM).
     destruct (step =? 1) eqn:S1.
     + destruct (BP ltac:(lia)) as [B1 B2].
-      destruct (write_loop q sc st (r, []) (slice_writes start (Z.max start stop) vs) false) as [[st1 upd] err] eqn:WL.
-      destruct (write_loop_splice q sc r tid fl vs st its false start (Z.max start stop) st1 upd err R C PL ltac:(lia) ltac:(lia) WL)
+      destruct (write_loop q sc st ps (slice_writes start (Z.max start stop) vs) false) as [[st1 upd] err] eqn:WL.
+      destruct (write_loop_splice q sc ps tid pa fl vs st its false start (Z.max start stop) st1 upd err R C A W PL ltac:(lia) ltac:(lia) WL)
         as (EE & W1). subst err.
-      destruct (ldel_many st1 (r, []) (fun i => (start + zlen vs <=? i) && (i <? Z.max start stop))) as [st2 del] eqn:DM.
+      destruct (ldel_many st1 ps (fun i => (start + zlen vs <=? i) && (i <? Z.max start stop))) as [st2 del] eqn:DM.
       inv E. split; [|reflexivity]. apply wrote_fix_chain.
-      eapply wrote_step; eauto. intros its1 R1 C1 E1.
-      pose proof (ldel_many_root r tid fl st1 its1 _ st2 del R1 C1 DM) as W2.
+      eapply wrote_step; eauto. intros its1 R1 C1 A1 WW1 E1.
+      pose proof (ldel_many_at ps tid pa fl st1 its1 _ st2 del R1 C1 A1 WW1 DM) as W2.
       rewrite E1 in W2. rewrite <- len_map_prv in W2.
       rewrite PyListFacts.splice_then_delete in W2; try lia; auto.
       rewrite len_evals. lia.
@@ -151,19 +153,19 @@ Proof.
       match type of E with context [write_loop ?a ?b ?c ?d ?e ?f] => destruct (write_loop a b c d e f) as [[st1 upd] err] eqn:WL end.
       destruct (step <? 0) eqn:NEG.
       * assert (FB' : Forall (fun iv => 0 <= fst iv < zlen its /\ plain_rv (snd iv)) (rev ivs)) by (apply Forall_rev; auto).
-        destruct (write_loop_replace q sc r tid fl (rev ivs) st its false st1 upd err R C FB' WL) as (EE & W1). subst err.
+        destruct (write_loop_replace q sc ps tid pa fl (rev ivs) st its false st1 upd err R C A W FB' WL) as (EE & W1). subst err.
         inv E. split; [|reflexivity]. apply wrote_fix_chain.
         rewrite map_rev in W1. rewrite PyListFacts.fold_put_rev in W1; auto.
         -- apply Forall_map. simpl. eapply Forall_impl; [|exact FB]. simpl; intros; lia.
         -- rewrite map_map. simpl. apply PyListFacts.zip_fst_nodup; auto.
-      * destruct (write_loop_replace q sc r tid fl ivs st its false st1 upd err R C FB WL) as (EE & W1). subst err.
+      * destruct (write_loop_replace q sc ps tid pa fl ivs st its false st1 upd err R C A W FB WL) as (EE & W1). subst err.
         inv E. split; [|reflexivity]. apply wrote_fix_chain; auto.
   - (* del l[a:b:c] *)
     unfold PyList.del_slice. rewrite len_evals.
     destruct (PyList.slice_indices a b c (zlen its)) as [[[start stop] step]|] eqn:SI.
     2:{ inv E. auto. }
-    destruct (ldel_many st (r, []) (fun i => PyList.zmem i (PyList.slice_range start stop step))) as [st1 del] eqn:DM.
+    destruct (ldel_many st ps (fun i => PyList.zmem i (PyList.slice_range start stop step))) as [st1 del] eqn:DM.
     inv E. split; [|reflexivity]. apply wrote_fix_chain.
-    apply (ldel_many_root r tid fl st its _ st1 del R C DM).
+    apply (ldel_many_at ps tid pa fl st its _ st1 del R C A W DM).
 Qed.
 End SliceRefine.
